@@ -92,6 +92,7 @@ type Res struct {
 	Panicked bool
 	Cont     bool
 	Fmt      string
+	Late     bool // the input ran until its deadline (whatever the error that ended it says)
 }
 
 func (r Res) Failed() bool { return r.Panicked || len(r.Errs) > 0 }
@@ -113,7 +114,11 @@ func (s *S) Run(src string) Res {
 	before := s.Out.Len()
 	echoBuf := &bytes.Buffer{}
 	echo := &limitWriter{buf: echoBuf}
+	start := time.Now()
 	cont, panicked, errs, formatted := repl.EvalOne(context.Background(), s.St, src, echo, s.Opts)
+	// an expired deadline does not always surface under its own name (the error value can end up as the operand of
+	// something that fails in its own way): the clock decides
+	late := s.Opts.MaxDuration > 0 && time.Since(start) >= s.Opts.MaxDuration*9/10
 	all := s.Out.Bytes()
 	var delta string
 	if len(all) >= before {
@@ -123,7 +128,7 @@ func (s *S) Run(src string) Res {
 		// what was printed is incomplete: comparisons treat the input like one stopped by the allocation guard
 		errs = append(errs, "verif: output truncated, would exceed memory of the harness")
 	}
-	return Res{Out: delta, Echo: echoBuf.String(), Errs: errs, Panicked: panicked, Cont: cont, Fmt: formatted}
+	return Res{Out: delta, Echo: echoBuf.String(), Errs: errs, Panicked: panicked, Cont: cont, Fmt: formatted, Late: late}
 }
 
 // Obj parses and evaluates src directly on the session state and returns the resulting object.
@@ -265,6 +270,9 @@ func MemoryRefused(r Res) bool {
 
 // TimedOut reports whether the input was stopped by the evaluation deadline.
 func TimedOut(r Res) bool {
+	if r.Late {
+		return true
+	}
 	for _, e := range r.Errs {
 		if strings.Contains(e, "context deadline exceeded") || strings.Contains(e, "context canceled") {
 			return true
